@@ -491,7 +491,9 @@ pub fn gen_case(prop: &str, rng: &mut Rng) -> Case {
                 producer = false;
                 if !config.auditor && !in_tx && !sh.dropped && rng.chance(1, 2) {
                     // F8: the writer thread runs in the middle of this poll
-                    let k = 1 + rng.below(capacity.min(6) + 2);
+                    // mostly a few operations; one time in four enough to overflow the buffer whatever
+                    // its capacity (a lag that begins inside the poll)
+                    let k = if rng.chance(1, 4) && capacity <= 64 { capacity + 1 + rng.below(3) } else { 1 + rng.below(capacity.min(6) + 2) };
                     let mut ops = Vec::new();
                     for _ in 0..k {
                         let n = sh.cur_len();
